@@ -14,6 +14,26 @@ CHECKS = [
           "all heralded amplitudes (scatter matrix up to permutation of equal-photon ancillas, witness = concrete differing "
           "amplitude) are compared with RefCircuit, which has no mode-shifting logic.",
   "note": "n<=5 user modes, depth<=3, sub library of 10 shapes (<=2 heralds, nesting depth 2-3); Haar blocks stand for all unitaries"},
+ {"id": "C03", "engine": "E1", "ref": "DESIGN.md §3 C03",
+  "technique": "bounded exhaustive enumeration of circuits x Fock inputs/outputs x call shapes vs independent permanent",
+  "text": "For every circuit of a generated family (n<=4, every loss placement incl. 0 and 1, every herald layout incl. "
+          "in!=out, descending declaration, internal ancillas) and every Fock input/output up to 3 photons, in every call "
+          "shape, the simulated amplitude equals an independently computed permanent/sqrt(factorials) on the circuit's "
+          "U_full with heralds and vacuum loss modes placed; unit norm for lossless unheralded circuits; 11 invalid calls "
+          "must each be refused.",
+  "note": "n<=4 modes, <=3 visible photons (+<=2 herald photons); reference permanent cross-checked two ways at start-up"},
+ {"id": "C04", "engine": "E1", "ref": "DESIGN.md §3 C04",
+  "technique": "bounded exhaustive enumeration of circuits x Fock inputs x backends vs full-Fock-space reference distribution",
+  "text": "Same family and inputs; each backend's distribution is compared entry by entry with |amp|^2 summed over the "
+          "complete Fock basis incl. loss modes; non-negativity, photon bound, normalisation within the documented "
+          "truncation and permanent==slos.",
+  "note": "tolerance = folded-state count x 1e-9 (documented truncation) + 1e-11"},
+ {"id": "C05", "engine": "E1", "ref": "DESIGN.md §3 C05",
+  "technique": "bounded exhaustive enumeration of configurations; differential relations between the four simulation objects",
+  "text": "For every family circuit x photon number x 6 post-selection objects x input sets x expected maps x detector "
+          "mode the stated relations between Analyzer, Sampler, QuickSampler and Simulator are evaluated; every side is "
+          "computed by the library and only combined by the harness; no object may refuse a circuit the others accept.",
+  "note": "<=2 visible photons; predicates restricted to indexing/iteration (Analyzer/QuickSampler pass lists)"},
 ]
 _REASON = "check not built yet in this session (work in progress; not a claim that the technique cannot apply)"
 NOT_YET = [(f"C{i:02d}", _REASON) for i in range(1, 20) if f"C{i:02d}" not in {c["id"] for c in CHECKS}]
